@@ -2150,6 +2150,7 @@ class LinearOperator(object):
         """
         from linear_operator.operators import to_linear_operator
         from linear_operator.operators.chol_linear_operator import CholLinearOperator
+        from linear_operator.operators.diag_linear_operator import DiagLinearOperator
         from linear_operator.operators.root_linear_operator import RootLinearOperator
 
         if not self.is_square:
@@ -2183,14 +2184,14 @@ class LinearOperator(object):
         if method == "symeig":
             evals, evecs = self._symeig(eigenvectors=True)
             # TODO: only use non-zero evals (req. dealing w/ batches...)
-            root = evecs * evals.clamp_min(0.0).sqrt().unsqueeze(-2)
+            root = evecs @ DiagLinearOperator(evals.clamp_min(0.0).sqrt())
         elif method == "diagonalization":
             evals, evecs = self.diagonalization()
-            root = evecs * evals.clamp_min(0.0).sqrt().unsqueeze(-2)
+            root = evecs @ DiagLinearOperator(evals.clamp_min(0.0).sqrt())
         elif method == "svd":
             U, S, _ = self.svd()
             # TODO: only use non-zero singular values (req. dealing w/ batches...)
-            root = U * S.sqrt().unsqueeze(-2)
+            root = U @ DiagLinearOperator(S.sqrt())
         elif method == "lanczos":
             root = self._root_decomposition()
         else:
@@ -2219,6 +2220,7 @@ class LinearOperator(object):
         :param method: Root decomposition method to use (symeig, diagonalization, lanczos, or cholesky).
         :return: A tensor :math:`\mathbf R` such that :math:`\mathbf R \mathbf R^\top \approx \mathbf A^{-1}`.
         """
+        from linear_operator.operators.diag_linear_operator import DiagLinearOperator
         from linear_operator.operators.root_linear_operator import RootLinearOperator
         from linear_operator.operators.triangular_linear_operator import TriangularLinearOperator
 
@@ -2270,14 +2272,14 @@ class LinearOperator(object):
         elif method == "symeig":
             evals, evecs = self._symeig(eigenvectors=True)
             # TODO: only use non-zero evals (req. dealing w/ batches...)
-            inv_root = evecs * evals.clamp_min(1e-7).reciprocal().sqrt().unsqueeze(-2)
+            inv_root = evecs @ DiagLinearOperator(evals.clamp_min(1e-7).reciprocal().sqrt())
         elif method == "diagonalization":
             evals, evecs = self.diagonalization()
-            inv_root = evecs * evals.clamp_min(1e-7).reciprocal().sqrt().unsqueeze(-2)
+            inv_root = evecs @ DiagLinearOperator(evals.clamp_min(1e-7).reciprocal().sqrt())
         elif method == "svd":
             U, S, _ = self.svd()
             # TODO: only use non-zero singular values (req. dealing w/ batches...)
-            inv_root = U * S.clamp_min(1e-7).reciprocal().sqrt().unsqueeze(-2)
+            inv_root = U @ DiagLinearOperator(S.clamp_min(1e-7).reciprocal().sqrt())
         elif method == "pinverse":
             # this is numerically unstable and should rarely be used
             root = self.root_decomposition().root.to_dense()
